@@ -11,7 +11,7 @@ Tie to the source
     the end what remains to be yielded.  gzip streams and md5 digests are external: the model runs
     with a *symbolic* gzip (OPEN data CLOSE, two code points outside the octets) and a symbolic digest;
     the harness maps the real bytes to that symbolic form with zlib (never bytewise) and maps a
-    truthful Content-Length to the symbolic length (an untruthful one is marked and can never match);
+    truthful Content-Length to the symbolic length;
   * oracle: the property's executable statement on the real implementation.  Every prefix of every
     history is replayed and finished in three ways -- GET through a strict WSGI harness, HEAD through
     the same harness, `.body`/`.text` read followed by Request.call_application -- and compared with
@@ -124,6 +124,8 @@ def build(case):
         kw["charset"] = c["charset"]
     if "cond" in c:
         kw["conditional_response"] = c["cond"]
+    if "content_length" in c:
+        kw["content_length"] = c["content_length"]
     try:
         return classes()[case["cls"]](**kw)
     except Exception as e:  # noqa
@@ -224,6 +226,9 @@ def apply_op(r, op):
         elif t == "set_location":
             r.location = op[1]
             res = None
+        elif t == "set_content_length":
+            r.content_length = op[1]
+            res = None
         elif t == "call":
             calls, chunks, problems = wsgi_call(r, op[1])
             res = [[[s, [list(h) for h in hl]] for s, hl in calls], chunks]
@@ -293,12 +298,15 @@ def codec_ok(name):
 class Ref:
     """What the statement says the response holds: expected body as segments, how the app_iter behaves."""
 
-    def __init__(self, segs, kind):
+    def __init__(self, segs, kind, raw=False):
         self.segs = segs          # list of ("raw", bytes) | ("gz", segs)
         self.kind = kind          # list | tuple | iter | gen
+        # a Content-Length was written by hand (r.content_length = n / content_length=) and no body mutation
+        # that replaces the body has happened since: its value is the caller's business until then
+        self.raw = raw
 
     def clone(self):
-        return Ref(list(self.segs), self.kind)
+        return Ref(list(self.segs), self.kind, self.raw)
 
 
 def ref_step(ref, r, op, res, pre):
@@ -315,7 +323,7 @@ def ref_step(ref, r, op, res, pre):
             return unexpected()
         b = {"set_body": lambda: bytes.fromhex(op[1]), "del_body": lambda: b"",
              "set_json": lambda: json.dumps(op[1], separators=(",", ":")).encode("utf-8")}[t]()
-        ref.segs, ref.kind = [("raw", b)], "list"
+        ref.segs, ref.kind, ref.raw = [("raw", b)], "list", False
         return None
     if t == "set_text":
         enc = pre["charset"] or "UTF-8"
@@ -325,7 +333,7 @@ def ref_step(ref, r, op, res, pre):
             return None if raised else ("set_text:unencodable-accepted", "%r accepted under charset %r" % (op, enc))
         if raised:
             return unexpected()
-        ref.segs, ref.kind = [("raw", b)], "list"
+        ref.segs, ref.kind, ref.raw = [("raw", b)], "list", False
         return None
     if t in ("write", "fwrite", "write_text", "file_write"):
         if t == "write_text":
@@ -355,11 +363,18 @@ def ref_step(ref, r, op, res, pre):
         chunks = op[2] if t == "set_app_iter" else op[1]
         ref.segs = [("raw", b"".join(bytes.fromhex(c) for c in chunks))]
         ref.kind = op[1] if t == "set_app_iter" else "gen"
+        ref.raw = False
         return None
     if t == "del_app_iter":
         if raised:
             return unexpected()
-        ref.segs, ref.kind = [("raw", b"")], "list"
+        ref.segs, ref.kind, ref.raw = [("raw", b"")], "list", False
+        return None
+    if t == "set_content_length":
+        if raised:
+            return unexpected()
+        if op[1] is not None:
+            ref.raw = True
         return None
     if t == "encode" and op[1] == "gzip":
         if raised:
@@ -368,6 +383,7 @@ def ref_step(ref, r, op, res, pre):
             return None                      # already encoded: nothing happens
         ref.segs = [("gz", ref.segs)]
         ref.kind = "gen" if op[2] else "list"
+        ref.raw = False
         if [v for k, v in r.headerlist if k.lower() == "content-encoding"] != ["gzip"]:
             return ("gzip:content-encoding-not-set", "after encode_content the headers are %r" % (r.headerlist,))
         return None
@@ -381,7 +397,7 @@ def ref_step(ref, r, op, res, pre):
         if segs and segs[0][0] == "gz" and all(s[0] == "raw" and not s[1].strip(b"\0") for s in segs[1:]):
             if raised:
                 return ("gzip:decode-fails", "decode_content() of an encode_content() stream raised %s" % res.name)
-            ref.segs, ref.kind = list(segs[0][1]), "list"
+            ref.segs, ref.kind, ref.raw = list(segs[0][1]), "list", False
             if any(k.lower() == "content-encoding" for k, _ in r.headerlist):
                 return ("gzip:content-encoding-left", "after decode_content the headers are %r" % (r.headerlist,))
             return None
@@ -398,7 +414,7 @@ def ref_step(ref, r, op, res, pre):
                 return None
             if raised:
                 return unexpected()
-            ref.segs, ref.kind = [("raw", want)], "list"
+            ref.segs, ref.kind, ref.raw = [("raw", want)], "list", False
             return None
         # a gzip member followed by other bytes: outcome not determined by the statement
         if raised:
@@ -480,6 +496,8 @@ def check_call(ref, pre, method, calls, chunks, base):
     if m:
         return ("wsgi:body", "yielded bytes differ from the response body: " + m)
     for k, v in headers:
+        if ref.raw:
+            break
         if k.lower() == "content-length" and v != str(len(data)):
             return ("content-length:untruthful", "Content-Length: %s but %d bytes were yielded" % (v, len(data)))
     return None
@@ -525,12 +543,19 @@ def run_prefix(case, n):
         else:
             b = b""
         ref = Ref([("raw", b)], "list")
+    if c.get("content_length") is not None:
+        ref.raw = True
+    if any(k.lower() == "content-length" for k, _ in c.get("headerlist", [])) and \
+            ("app_iter" in c or r.status[:1] == "1" or r.status[:3] in NOBODY):
+        ref.raw = True       # kept as given by the constructor: the caller's own
     others = []
     for i, op in enumerate(case["ops"][:n]):
         pre = pre_state(r)
         try:
             r, res, other = apply_op(r, op)
         except AssertionError as e:
+            if ref.raw:
+                return ("skip",)     # reading a body whose hand-written Content-Length is wrong: refused, allowed
             return ("fail", "content-length:assertion-in-" + op[0], "step %d %r: %s" % (i, op, e))
         m = ref_step(ref, r, op, res, pre)
         if m:
@@ -565,7 +590,7 @@ def finish(r, ref, how):
         if m:
             return ("readback:body", ".body: " + m)
         cl = [v for k, v in r.headerlist if k.lower() == "content-length"]
-        if any(v != str(len(body)) for v in cl):
+        if not ref.raw and any(v != str(len(body)) for v in cl):
             return ("content-length:untruthful-after-read", "Content-Length %r after reading a %d-byte body" % (cl, len(body)))
         if r.body != body:
             return ("readback:body-unstable", "second .body read differs")
@@ -591,9 +616,11 @@ def finish(r, ref, how):
         finally:
             if hasattr(app_iter, "close"):
                 app_iter.close()
-        ref2 = Ref(ref.segs, "list")
+        ref2 = Ref(ref.segs, "list", ref.raw)
         return check_call(ref2, pre, "GET", [(status, headers)], chunks, "http://localhost/")
     except AssertionError as e:
+        if ref.raw:
+            return None      # webob refuses to join a body whose hand-written Content-Length is wrong: allowed
         return ("content-length:assertion-at-" + how, str(e))
 
 
@@ -632,9 +659,12 @@ def oracle_ctor(case):
     if nobody:
         hl = [tuple(h) for h in r.headerlist]
         given = [tuple(h) for h in c.get("headerlist", [])]
+        if c.get("content_length") is not None:
+            given = [h for h in given if h[0].lower() != "content-length"] + [("Content-Length", str(c["content_length"]))]
         if hl != given:
             return ("nobody-status:headers", "status %r created with headers %r" % (st, hl), case)
-        if any(k.lower() in ("content-type", "content-length") for k, _ in hl) and "headerlist" not in c:
+        if any(k.lower() in ("content-type", "content-length") for k, _ in hl) and "headerlist" not in c \
+                and c.get("content_length") is None:
             return ("nobody-status:headers", "status %r created with %r" % (st, hl), case)
         if "app_iter" not in c:
             if r.body != b"":
@@ -676,7 +706,7 @@ def canon_text(t):
 
 def canon_headers(hl, chunks, md5map):
     """chunks: what the Content-Length is to be judged against (None: unknown, e.g. an unread iterator).
-    A truthful Content-Length becomes the symbolic length, an untruthful one is marked."""
+    A truthful Content-Length becomes the symbolic length."""
     actual = fake = None
     if chunks is not None:
         actual = sum(len(c) for c in chunks)
@@ -684,7 +714,9 @@ def canon_headers(hl, chunks, md5map):
     out = []
     for k, v in hl:
         if k.lower() == "content-length" and actual is not None:
-            v = str(fake) if v == str(actual) else "WRONG:" + v
+            # (a different value is left as it is: it may have been written by hand, and the model never
+            # produces it from a truthful length unless it is one)
+            v = str(fake) if v == str(actual) else v
         elif v in md5map:
             v = md5map[v]
         out.append([k, v])
@@ -740,6 +772,8 @@ def c_app(kind, chunks):
     cs = clist(cstr(bytes.fromhex(x)) for x in chunks)
     if kind == "list":
         return "(AList %s)" % cs
+    if kind == "tuple":
+        return "(ATuple %s)" % cs
     return "(AIter %s %s)" % (cbool(kind != "iter"), cs)
 
 
@@ -789,6 +823,8 @@ def c_op(op):
         return "(OSetStatus %s)" % c_status(op[1])
     if t == "set_location":
         return "(OSetLocation %s)" % copt(None if op[1] is None else cstr(op[1]))
+    if t == "set_content_length":
+        return "(OSetContentLength %s)" % copt(None if op[1] is None else fw.cN(op[1]))
     if t == "call":
         return "(OCall %s)" % cbool(op[1] == "HEAD")
     raise ValueError(op)
@@ -828,8 +864,15 @@ def model_case(rng, maxlen):
             ops += [["fwrite", x] for x in o[1]]
         elif o[0] == "set_location":
             ops.append([o[0], rng.choice(["/abs/path", "rel", "http://other.example/x", "HTTPS://h/", None, "mailto:a@b", "/"])])
+        elif o[0] == "set_content_length" and any(p[0] == "encode" and p[1] == "gzip" for p in ops):
+            # once a gzip stream may be in the body, a hand-written length must not be able to coincide with the
+            # length of the real stream or of the model's symbolic one (they differ): only 0 / large / None
+            ops.append([o[0], rng.choice([0, 1000, 1000, None])])
         else:
             ops.append(o)
+    if "content_length" in case["ctor"]:
+        # keyword arguments are applied with setattr after construction: the same as a first step
+        ops.insert(0, ["set_content_length", case["ctor"].pop("content_length")])
     case["ops"] = ops or [["get_body"]]
     if "content_type" in case["ctor"] and case["ctor"]["content_type"] is None:
         del case["ctor"]["content_type"]
@@ -863,8 +906,8 @@ def rand_chunks(rng, nonempty=False):
 
 
 def rand_op(rng, model_only=False):
-    kinds = ["list", "iter", "gen"] + ([] if model_only else ["tuple"])
-    t = rng.choice(["set_body", "set_body", "del_body", "set_text", "set_text", "set_json", "get_body", "get_body",
+    kinds = ["list", "iter", "gen", "tuple"]
+    t = rng.choice(["set_content_length", "set_content_length", "set_body", "set_body", "del_body", "set_text", "set_text", "set_json", "get_body", "get_body",
                     "get_text", "write", "write", "write", "write_text", "file_write", "set_app_iter", "set_app_iter",
                     "set_app_iter", "set_body_file", "del_app_iter", "encode", "encode", "encode", "decode", "decode",
                     "md5_etag", "copy", "copy", "set_charset", "del_charset", "set_content_type", "set_status",
@@ -895,6 +938,8 @@ def rand_op(rng, model_only=False):
         return [t, rng.choice(STATUSES)]
     if t == "set_location":
         return [t, rng.choice(LOCATIONS)]
+    if t == "set_content_length":
+        return [t, rng.choice([0, 1, 3, 5, 7, 1000, None])]
     if t == "call":
         return [t, rng.choice(["GET", "HEAD"])]
     return [t]
@@ -902,7 +947,7 @@ def rand_op(rng, model_only=False):
 
 def rand_ctor(rng, model_only=False):
     c = {}
-    kinds = ["list", "iter", "gen"] + ([] if model_only else ["tuple"])
+    kinds = ["list", "iter", "gen", "tuple"]
     x = rng.random()
     if x < 0.3:
         c["body"] = rand_bytes(rng)
@@ -920,9 +965,9 @@ def rand_ctor(rng, model_only=False):
             hl.append(rng.choice([["X-A", "1"], ["Content-Type", "text/plain; charset=latin-1"],
                                   ["content-type", "application/json"], ["Location", "/there"], ["location", "rel"],
                                   ["ETag", '"e"']]))
-        # a Content-Length in the caller's own header list is a raw header edit; it is only generated where
-        # the constructor replaces it (no app_iter, default status)
-        if "app_iter" not in c and "status" not in c and rng.random() < 0.5:
+        # a Content-Length in the caller's own header list: replaced by the constructor when it builds the body
+        # itself, otherwise a hand-written one (the reference treats it like r.content_length = n)
+        if rng.random() < 0.5:
             hl.append([rng.choice(["Content-Length", "content-length"]), rng.choice(["7", "0", "12"])])
         c["headerlist"] = hl
     if rng.random() < 0.3:
@@ -931,6 +976,8 @@ def rand_ctor(rng, model_only=False):
         c["charset"] = rng.choice(CHARSETS[:6] + [None])
     if rng.random() < 0.15:
         c["cond"] = rng.random() < 0.5
+    if rng.random() < 0.2:
+        c["content_length"] = rng.choice([0, 2, 3, 7])       # Response(..., content_length=n): set after construction
     return c
 
 
@@ -962,7 +1009,7 @@ def gen(ctx):
 
 
 # =========================================================================== the check
-MUTATING = {"set_body", "del_body", "set_text", "set_json", "write", "fwrite", "write_text", "file_write",
+MUTATING = {"set_content_length", "set_body", "del_body", "set_text", "set_json", "write", "fwrite", "write_text", "file_write",
             "set_app_iter", "set_body_file", "del_app_iter", "encode", "decode", "copy", "call", "md5_etag"}
 FN = "(fun x => run_fake (fst (fst x)) (snd (fst x)) (snd x))"
 IN_TYPE = "(cfg * cargs * list op)"
@@ -978,6 +1025,7 @@ def small_universe():
         ["encode", "identity", False], ["decode"], ["md5_etag", True], ["copy", True], ["copy", False],
         ["set_charset", "latin-1"], ["set_charset", None], ["set_content_type", "application/json"],
         ["set_status", 204], ["set_location", "/x"], ["call", "GET"], ["call", "HEAD"],
+        ["set_content_length", 3], ["set_content_length", None],
     ]
 
 
@@ -1016,6 +1064,15 @@ CORPUS = [
              ["decode"], ["get_body"]]},
     {"cls": "nodef", "ctor": {"text": "\xe9", "charset": "latin-1", "content_type": "application/x"},
      "ops": [["get_text"], ["set_content_type", "text/plain"], ["get_text"], ["set_text", "\xe9"], ["get_body"]]},
+    # a hand-written Content-Length on a non-list body is cleared by the next app_iter / body_file assignment
+    {"cls": "base", "ctor": {"app_iter": ["gen", ["61", "62"]]},
+     "ops": [["set_content_length", 2], ["set_app_iter", "iter", ["616263", "64"]], ["call", "GET"]]},
+    {"cls": "cond", "ctor": {"app_iter": ["tuple", ["6162"]]},
+     "ops": [["set_content_length", 7], ["set_body_file", ["68656c6c6f"]], ["call", "HEAD"], ["call", "GET"]]},
+    {"cls": "latin", "ctor": {"app_iter": ["iter", ["61"]]},
+     "ops": [["set_content_length", 1], ["set_app_iter", "tuple", ["6162", "", "63"]], ["write", "64"], ["copy", True], ["get_body"]]},
+    {"cls": "base", "ctor": {},
+     "ops": [["set_body_file", ["6162"]], ["set_content_length", 2], ["set_body_file", ["616263"]], ["encode", "gzip", True], ["call", "GET"]]},
     {"cls": "json", "ctor": {"status": 304, "body": "6162", "content_type": "text/plain"},
      "ops": [["write", "63"], ["get_body"], ["set_status", 200], ["call", "HEAD"], ["call", "GET"]]},
 ]
@@ -1059,7 +1116,7 @@ def run(ctx):
     correspond("constructor", ctors)
     if ctx.thorough:
         # every history of depth <= 2 over the modelled part of the small universe, two starting points
-        U = [o for o in small_universe() if not (o[0] == "set_app_iter" and o[1] == "tuple") and o[0] != "file_write"]
+        U = [o for o in small_universe() if o[0] != "file_write"]
         ex = []
         for ctor in ({}, {"app_iter": ["iter", ["61", "", "6263"]]}):
             for d in (1, 2):
@@ -1111,8 +1168,8 @@ def run(ctx):
                                  for _ in range(ctx.scale(1500, 20000))))
 
     ctx.extra["rule"] = (
-        "correspondence: random constructor arguments x operation histories (<= %d steps over 21 operation kinds, 6 classes, "
-        "list / iterator / generator / file bodies, empty chunks) compared step by step (result or exception class, status, "
+        "correspondence: random constructor arguments x operation histories (<= %d steps over 22 operation kinds, 6 classes, "
+        "list / tuple / iterator / generator / file bodies, empty chunks) compared step by step (result or exception class, status, "
         "header list, app_iter type and chunks, final drain) between the Gallina model and real Response objects; counted "
         "distinct by Coq literal.  oracle: every prefix of every history finished by GET, HEAD and read+call_application and "
         "compared with the reference written from the statement; a case is non-trivial when it contains at least one "
@@ -1124,8 +1181,9 @@ def run(ctx):
         "md5/base64 and urljoin are parameters of the model; Location values in the correspondence are plain paths or absolute URLs",
         "the request carries no If-*/Range header (conditional responses are C06); the WSGI server iterates the result to "
         "exhaustion and calls close()",
-        "Content-Length values present in a caller-supplied header list are raw header edits, outside the statement "
-        "(only generated where the constructor replaces them)",
+        "a Content-Length written by hand (content_length = n, content_length=, or kept from the caller's header list) is "
+        "the caller's until the next body-replacing mutation (body / app_iter / body_file / del / encode / successful text): "
+        "truthfulness is checked again from there on",
         "charsets: utf-8, latin-1, ascii (and unknown names); int() on status / Content-Length text only for plain ASCII digits",
     ]
     ctx.trusted += [
